@@ -15,10 +15,10 @@ import (
 
 func init() {
 	Registry["C16"] = Spec{
-		Fn:     c16,
-		Level:  "exploration",
-		Builds: []string{"default", "purego"},
-		Rule: "histories over {Append, AppendMany (crossing LowCardinality key widths), Reset, Prepare, Infer, EncodeColumn, WriteColumn+Flush, EncodeRawBlock, Reset+Decode(valid data, incl. reference-encoded LowCardinality with forced key widths), Reset+Decode(truncated)} on one column object, checked after every step against a list-of-values model: Rows(), Row(i) for all i, and the reference decode of every encoding. Random histories of length <= 40 for every catalogue column and boxed random compositions; exhaustive histories of length <= 4 (quick) / 5 (thorough) over a reduced alphabet for LowCardinality, Enum, String, Array, Map, Nullable, DateTime64. Non-trivial = >=2 encodes or a decode after use; distinct = (type, kind, history)",
+		Fn:          c16,
+		Level:       "exploration",
+		Builds:      []string{"default", "purego"},
+		Rule:        "histories over {Append, AppendMany (crossing LowCardinality key widths), Reset, Prepare, Infer, EncodeColumn, WriteColumn+Flush, EncodeRawBlock, Reset+Decode(valid data, incl. reference-encoded LowCardinality with forced key widths), Reset+Decode(truncated)} on one column object, checked after every step against a list-of-values model: Rows(), Row(i) for all i, and the reference decode of every encoding. Random histories of length <= 40 for every catalogue column and boxed random compositions; exhaustive histories of length <= 4 (quick) / 5 (thorough) over a reduced alphabet for LowCardinality, Enum, String, Array, Map, Nullable, DateTime64. Non-trivial = >=2 encodes or a decode after use; distinct = (type, kind, history)",
 		Assumptions: []string{"contract: no decode into a non-empty column (Reset precedes every decode); after a failed decode the next operation is Reset; Preparable columns are prepared before encoding"},
 		MinDistinct: 500,
 	}
@@ -377,6 +377,14 @@ func c16(r *core.Run) {
 		}
 		seed := rng.Int63()
 		c16Run(r, ci, ts, func() (val.LibCol, error) { return val.Build(t, rand.New(rand.NewSource(seed)).Intn) }, nil, 40)
+	}
+	// ColEnum re-inferred between blocks (renumbered / widened / extended definitions)
+	for k := 0; k < r.Pick(3000, 60000); k++ {
+		ci++
+		if !r.Take(ci) {
+			continue
+		}
+		c16EnumReinfer(r, ci)
 	}
 	// exhaustive short histories over a reduced alphabet for the stateful column kinds
 	alpha := []int{opAppend, opAppendSeen, opEncode, opReset, opDecode, opAppendMany}
